@@ -241,6 +241,13 @@ class LocalStorageBackend(StorageBackend):
         logger.debug(f"Writing file: {path} ({len(content)} bytes)")
 
         full_path = self._resolve_path(path)
+        if full_path == self._real_base_path():
+            # '' / '.' / 'x/..' resolve to the table root itself. Its parent
+            # directory is OUTSIDE the table, and the temp file below would be
+            # created there before the rename onto a directory failed.
+            raise ValueError(
+                f"Security Error: '{path}' resolves to the table root, not to a file inside it"
+            )
         dir_path = os.path.dirname(full_path)
         os.makedirs(dir_path, exist_ok=True)
 
